@@ -565,7 +565,9 @@ func (p *c03) execUniform(c c03Case) core.Obs {
 		`<i :class="{on: %[1]s}" data-m="cls"></i>`+
 		`<i v-if="!%[1]s" data-m="nif"></i>`+
 		`<i v-if="zz" data-m="x"></i><i v-else-if="!%[1]s" data-m="nelif"></i>`+
-		`<i v-show="!%[1]s" data-m="nshow"></i>`, e)
+		`<i v-show="!%[1]s" data-m="nshow"></i>`+
+		`<i :data-on="!%[1]s" data-m="nattr"></i>`+
+		`<i :class="{on: !%[1]s}" data-m="ncls"></i>`, e)
 	if c.Path == "shadow" {
 		tpl = `<template v-for="v in vs">` + tpl + `</template>`
 	}
@@ -614,6 +616,14 @@ func (p *c03) execUniform(c c03Case) core.Obs {
 	obs["!v-else-if"] = !nelif
 	if h, ok := hidden("nshow"); ok {
 		obs["!v-show"] = h
+	}
+	if n, ok := has("nattr"); ok {
+		_, on := n.Attr("data-on")
+		obs["!:attr"] = !on
+	}
+	if n, ok := has("ncls"); ok {
+		cv, _ := n.Attr("class")
+		obs["!:class-object"] = !strings.Contains(" "+cv+" ", " on ")
 	}
 	want, decided := v.Truthy()
 	if !decided {
